@@ -120,6 +120,32 @@ pub fn audit_tree(pages: &Pages, root: u64, _cmp: &dyn Fn(&[u8], &[u8]) -> Optio
     None
 }
 
+/// Cheap check of the free list alone: ids in range, no cycle, ends at the recorded tail.
+pub fn audit_free_list(pages: &Pages) -> Option<(String, String)> {
+    let z = pages.page_zero();
+    let mut cur = z.first_free_page;
+    let mut last = None;
+    let mut n = 0u64;
+    while let Some(f) = cur {
+        if f == 0 || f >= z.total_pages {
+            return Some(("free_list_out_of_range".into(), format!("free list references page {f} (total_pages {})", z.total_pages)));
+        }
+        n += 1;
+        if n > z.total_pages {
+            return Some(("free_list_cycle".into(), "free list does not end".into()));
+        }
+        last = Some(f);
+        cur = match pages.overflow_page(f) {
+            Ok(p) => p.next,
+            Err(e) => return Some(("page_unreadable".into(), format!("free page {f}: {e}"))),
+        };
+    }
+    if last != z.last_free_page {
+        return Some(("free_list_tail_mismatch".into(), format!("free list ends at {:?}, header says last_free_page {:?} (first {:?})", last, z.last_free_page, z.first_free_page)));
+    }
+    None
+}
+
 /// Walks the free list and checks that every page 1..total_pages has exactly one owner.
 pub fn audit_free_list_and_ownership(pages: &Pages, owners: &mut BTreeMap<u64, Vec<Owner>>) -> Option<(String, String)> {
     let z = pages.page_zero();
